@@ -10,6 +10,11 @@ package generic
 // C17, package-wide: a function that takes a sync lock itself has released it
 // again on every normal return path (directly or through a deferred call).
 //@ every-function generic lock-balance
+// C17, package-wide: a function that asks for the process-wide printer (slip.DefaultPrinter()) works on
+// a copy: it never stores through that pointer and never hands it to a function that stores to Printer
+// fields. Print settings a routine binds stay its own; what one routine prints cannot change what
+// another prints.
+//@ every-function generic shared-printer-kept
 
 // C07, package-wide: a function that evaluates Lisp forms itself forwards the
 // return-from / go marker an evaluation hands back: nothing more is evaluated
@@ -61,7 +66,11 @@ package generic
 // section (a defmethod cannot slip in between), and calls it outside the lock
 //@ pure-func slip.ClassGeneration
 //@ func generic.(*Aux).Call
-//@   property C10 C17
+//@   property C04 C10 C17
+// C04: whichever method ends up running (the single default method, a cached or a newly built
+// effective method), it is called only with at least the required arguments of the generic
+// function's lambda list - a lambda does not check that itself.
+//@   on-call Call every-method-call-has-the-required-arguments: len(args) >= aux.reqCnt
 // C10 / C12: the cache is consulted only after it was brought up to date with the
 // class definitions: an entry filed under class names is dropped when any class
 // has been defined or redefined since (its precedence list may have changed).
@@ -100,3 +109,17 @@ package generic
 //@   count-stores Combinations
 //@   ensures pushed-down: $nstore_Combinations >= 1 ==> $ncall_AllClasses == 1
 //@   ensures one-prepend: $nstore_Combinations <= 1
+
+// C10: find-method returns a method object that stands for exactly the daemon that was asked for
+// (remove-method takes every daemon of the object it is given out of the generic function: an object
+// that also carried the :around of the same specializers would take that one out too). The object
+// is a new one; the table's own method is never handed out.
+//@ define daemons(c) = (c.Primary != nil ? 1 : 0) + (c.Before != nil ? 1 : 0) + (c.After != nil ? 1 : 0) + (c.Wrap != nil ? 1 : 0)
+//@ define found(r) = as(r, ptr(slip.Method))
+//@ func generic.(*FindMethod).Call
+//@   property C10
+//@   ensures one-daemon-only: (meth != nil && is(meth, ptr(slip.Method))) ==> (fresh(found(meth)) && len(found(meth).Combinations) == 1 && daemons(found(meth).Combinations[0]) == 1)
+//@   ensures primary-asked: (meth != nil && is(meth, ptr(slip.Method)) && qual == ":primary") ==> found(meth).Combinations[0].Primary != nil
+//@   ensures before-asked: (meth != nil && is(meth, ptr(slip.Method)) && qual == ":before") ==> found(meth).Combinations[0].Before != nil
+//@   ensures after-asked: (meth != nil && is(meth, ptr(slip.Method)) && qual == ":after") ==> found(meth).Combinations[0].After != nil
+//@   ensures around-asked: (meth != nil && is(meth, ptr(slip.Method)) && qual == ":around") ==> found(meth).Combinations[0].Wrap != nil
